@@ -401,7 +401,7 @@ class Tags:
         self.roles = {}
         # directory accessor: mentioned by the lookup's open path
         q = ctx.explore(m['get'])
-        self.roles['dir'] = self._accessor_in(q, q.prim_edges('open_ro'), 0, 'directory accessor')
+        self.roles['dir'] = self._accessor_in(q, q.prim_edges({'open_ro', 'open_rw'}), None, 'directory accessor')
         q = ctx.explore(m['ensure_temp'])
         self.roles['temp'] = self._accessor_in(q, q.prim_edges('ns_create_dir'), 0, 'temp accessor')
         # capacity accessor: feeds the planner; trigger accessor: receiver of the gating pure call
@@ -409,7 +409,11 @@ class Tags:
         planner = 'local::' + ctx.B[ctx.key_of('second_chance::Update::<T>::new')]['path']
         pe = q.edges(lambda ev: ev['k'] == 'pure_local' and ev['path'] == planner)
         self.planner_path = planner
-        self.roles['capacity'] = self._accessor_in(q, pe, 1, 'capacity accessor')
+        self.role_errors = {}
+        try:
+            self.roles['capacity'] = self._accessor_in(q, pe, 1, 'capacity accessor')
+        except RoleError as e:
+            self.role_errors['capacity'] = str(e)     # only the rules that need this role fail closed
         cand = set()
         for (a, b, ev) in q.E:
             if ev is not None and ev['k'] == 'pure_local' and ev.get('dest_ty') == 'bool':
@@ -419,23 +423,34 @@ class Tags:
                         if t[0] == 'sym' and t[1] == 'app' and t[2] in self.impl_paths:
                             cand.add((self.impl_paths[t[2]], ev['path']))
         cand = {c for c in cand if c[0] not in self.roles.values()}
+        self.trigger_consult_paths = set()
         if len({c[0] for c in cand}) != 1:
-            raise RoleError('trigger accessor: expected one, found %s' % sorted(cand))
-        self.roles['trigger'] = next(iter(cand))[0]
-        self.trigger_consult_paths = {c[1] for c in cand}
+            self.role_errors['trigger'] = 'trigger accessor: expected one, found %s' % sorted(cand)
+        else:
+            self.roles['trigger'] = next(iter(cand))[0]
+            self.trigger_consult_paths = {c[1] for c in cand}
         self.by_role = {}
         for p, name in self.impl_paths.items():
             for role, n in self.roles.items():
                 if n == name:
                     self.by_role.setdefault(role, set()).add(p)
 
+    def need(self, role):
+        if role in self.role_errors:
+            raise RoleError(self.role_errors[role])
+        return self.by_role[role]
+
     def _accessor_in(self, q, edges, argi, what):
         names = set()
         for e in edges:
             ev = q.E[e][2]
-            if argi >= len(ev['args']) or ev['args'][argi] is None:
+            if argi is None:
+                argi_ = prims.classify(ev['path'])[1].get('path', 0)
+            else:
+                argi_ = argi
+            if argi_ >= len(ev['args']) or ev['args'][argi_] is None:
                 continue
-            for s in values.subs(ev['args'][argi]):
+            for s in values.subs(ev['args'][argi_]):
                 t = VAL[s]
                 if t[0] == 'sym' and t[1] == 'app' and t[2] in self.impl_paths:
                     names.add(self.impl_paths[t[2]])
